@@ -8,6 +8,8 @@ ASSUMPTIONS = [
     "tasks carry skipif(False), try_first / try_last and user markers at random: marks that must be irrelevant to containment "
     "(skipif(False) is no flag in the model, try_first / try_last are the model's priorities)",
     "observed schedule replayed in the Lean engine; theorems hold for every legal schedule",
+    "stream 'dirlink' (a DirectoryNode product next to file products, consumers of the DirectoryNode, the producer failing in its body or "
+    "in teardown): no provisional nodes in M6 (they are M7's, property C18), implementation-only oracle without model replay",
     "stream 'memlink' (product -> dependency links through an in-memory PythonNode whose producer fails): no in-memory nodes in M6, "
     "implementation-only oracle (contain, limit, exit) without model replay",
     "stream 'generator' (task generators with products / dependants / after-links, failing, under failure limits): the static engine "
@@ -154,6 +156,49 @@ def memlink_histories(ctx):
     return hs
 
 
+def dirlink_histories(ctx):
+    """Labelled stream "dirlink": a task with a directory-pattern (provisional `DirectoryNode`) product next to its file products,
+    consumers that depend on that DirectoryNode (alone or next to file links) and tasks below them; the producer fails in its body
+    or by not creating one of its file products (so it fails only in teardown, after its body wrote the directory). The static
+    engine model has no provisional nodes: implementation-only oracle (contain / limit / exit)."""
+    rng = ctx.rng
+    hs = []
+
+    def t(i, deps, prods, **kw):
+        return dict({"id": i, "module": 0, "deps": deps, "prods": prods, "after": [], "marks": [], "beh": "ok", "style": "default"}, **kw)
+    # corpus: F32 (fixed in 9523bbe) — the producer writes its directory but not its file product 111 (fails in teardown); task 1 consumes
+    # the directory only, task 2 a product of task 1, task 3 is independent
+    f32 = {"tasks": [t(0, [100], [110, 111], dirprod="a", beh="omit:1"), t(1, [], [120], dirdep=[0]), t(2, [120], [130]), t(3, [100], [140])],
+           "versions": {"0": 0}, "inputs": {"100": 5}}
+    hs.append({"tag": "dirlink", "spec": f32, "steps": [["build", {}], ["build", {}]]})
+    for i in range(ctx.scale(16, 300)):
+        spec = engine.gen_spec(rng, nt=(3, 7), after_p=0.1, after_needs_prods=True, prodless_p=0.05, dens=0.8,
+                               behs=("ok", "ok", "ok", "ok", "late"), styles=("default", "annotated", "kwargs"),
+                               marks=(("skipif_false", 0.1),), user_markers=True)
+        tasks = spec["tasks"]
+        aftered = {a for t in tasks for a in t["after"]}
+        prods_of = [t for t in tasks[:-1] if t["prods"] and t["id"] not in aftered]
+        if not prods_of:
+            continue
+        for u in rng.sample(prods_of, rng.randint(1, min(2, len(prods_of)))):
+            u["dirprod"] = rng.choice(["a", "z"])
+            if u.get("style") == "return":
+                u["style"] = "default"
+            later = [t for t in tasks if t["id"] > u["id"]]
+            for v in rng.sample(later, rng.randint(1, min(2, len(later)))):
+                v.setdefault("dirdep", []).append(u["id"])
+                if rng.random() < 0.5:
+                    v["deps"] = [d for d in v["deps"] if d not in u["prods"]]     # the directory is the only link
+            r = rng.random()
+            if r < 0.5:
+                u["beh"] = f"omit:{rng.randrange(len(u['prods']))}"              # fails in teardown: a file product is never created
+            elif r < 0.8:
+                u["beh"] = rng.choice(["late", "early"])
+        steps = [["build", {"maxfail": rng.choice([None, None, 1, 2])}], ["build", {}]]
+        hs.append({"tag": "dirlink", "spec": spec, "steps": steps})
+    return hs
+
+
 def generator_histories(ctx):
     """Labelled stream "generator": some tasks are task generators (@task(is_generator=True)) with products, dependants and
     after-links, failing before or after writing their products, under failure limits. The static Lean engine has no generators:
@@ -214,11 +259,15 @@ def run(ctx):
     engine.run_campaign(ctx, memlink_histories(ctx), oracle, kinds={"contain", "limit", "exit"}, nontrivial=nontrivial,
                         sel_eval=engine.sel_eval, compare_model=False)
     ctx.extra["memlink_stream_nontrivial"] = len(ctx.nontrivial) - before
+    before = len(ctx.nontrivial)
+    engine.run_campaign(ctx, dirlink_histories(ctx), oracle, kinds={"contain", "limit", "exit"}, nontrivial=nontrivial,
+                        sel_eval=engine.sel_eval, compare_model=False)
+    ctx.extra["dirlink_stream_nontrivial"] = len(ctx.nontrivial) - before
 
 
 def replay(ctx, obj):
     h = obj["input"]["history"]
-    if h.get("tag") in ("generator", "memlink"):
+    if h.get("tag") in ("generator", "memlink", "dirlink"):
         engine.run_campaign(ctx, [h] * 4, oracle, kinds={"contain", "limit", "exit"}, sel_eval=engine.sel_eval, compare_model=False)
     else:
         engine.run_campaign(ctx, [h] * 4, oracle, sel_eval=engine.sel_eval)
